@@ -64,25 +64,23 @@ def r_item_methods(m, rep, R):
 
 def r_priority(m, rep, R='R1.1'):
     """agenda = max-priority queue on in+out; items leave only through top()+pop()."""
-    lt = m.decls['operator<']
-    ps_ = cxx.params_of(lt)
-    paths = Paths(lt).paths
-    a, b = ps_[0].name, ps_[1].name
-    spec = ('bin', '<', ADD(M(V(a), 'in_score'), M(V(a), 'out_score')),
-            ADD(M(V(b), 'in_score'), M(V(b), 'out_score')))
-    got = expand_methods(paths[0][2], m) if len(paths) == 1 and paths[0][2] else None
-    rep.check(got is not None and canon(got) == canon(spec), R, _w(lt.line, 'operator<'),
-              'operator<:order',
-              'operator<(a,b) is a.score() < b.score() (max-heap on in+out): %s' % (canon(got) if got else '?'),
-              'operator<(a,b) is %s, expected %s' % (canon(got) if got else '?', canon(spec)))
-    r_item_methods(m, rep, R)
+    from . import cmpeval
+    lt, label = m.agenda_comparator()
     d = m.locals[m.agenda]
-    t = (d.dtype or d.type or '').replace(' ', '')
-    ok = t in ('std::priority_queue<parsing::cell_item>',
-               'std::priority_queue<parsing::cell_item,std::vector<parsing::cell_item>,std::less<parsing::cell_item>>')
-    rep.check(ok, R, _w(d.line), 'agenda:type',
-              'agenda is std::priority_queue<cell_item> with the default (operator<) comparator',
-              'agenda has type %s' % d.type)
+    rep.check(lt is not None, R, _w(d.line), 'agenda:type',
+              'agenda is a std::priority_queue<cell_item> ordered by %s' % label,
+              'the ordering of the agenda cannot be identified: %s' % label)
+    if lt is not None:
+        score = lambda v, s_: v[(s_, 'in_score')] + v[(s_, 'out_score')]
+
+        def spec(v):
+            l_, r_ = score(v, 'L'), score(v, 'R')
+            return None if l_ == r_ else l_ < r_
+        ok, detail = cmpeval.judge(lt, spec)
+        rep.check(ok, R, _w(lt.line, label), 'operator<:order',
+                  '%s(a,b) is a.score() < b.score() (max-heap on in+out): %s' % (label, detail),
+                  '%s(a,b) does not order by in+out ascending (so that top() is the best item): %s' % (label, detail))
+    r_item_methods(m, rep, R)
     # uses of the agenda
     uses = {}
     for n in m.ps.find('CXXMemberCallExpr'):
@@ -122,6 +120,11 @@ def r_best(m, rep, R='R1.2b'):
         d = m.locals.get(m.DALL)
         init = m.env.init_of(d) if d is not None else None
         ok = init is not None and term(init, m.env) in (LIT(0), LIT(0.0))
+        if getattr(m, 'DALL_sum', None) is not None and d is not None:
+            # the sum of the finished BD vector, taken after the loop that fills it
+            idx_ = {id(s_): i_ for i_, s_ in enumerate(m.top)}
+            where = [i_ for i_, s_ in enumerate(m.top) if s_.kind == 'DeclStmt' and any(k_ is d for k_ in s_.kids)]
+            ok = m.DALL_sum in (LIT(0), LIT(0.0)) and bool(where) and where[0] > max(idx_[id(l_)] for l_ in m.init_loops)
         rep.check(ok, R, _w(d.line if d else 0), 'DALL:init', 'D_all starts at 0', 'D_all does not start at 0')
     # queue fill: scored[t].emplace(TAG(t, c), c) for c in [0, num_tags)
     fills = []
@@ -162,6 +165,20 @@ def r_best(m, rep, R='R1.2b'):
     pair = 'std::pair<float,unsignedint>'
     ok = t in ('std::vector<std::priority_queue<%s,std::vector<%s>,std::less<%s>>>' % (pair, pair, pair),
                'std::vector<std::priority_queue<%s>>' % pair)
+    if not ok:
+        # a record that is a (score, category) pair under another name, with an ordering of its own that puts the higher
+        # score on top
+        from . import cmpeval
+        for rname in cxx.PAIR_RECORDS:
+            if t in ('std::vector<std::priority_queue<%s,std::vector<%s>,std::less<%s>>>' % (rname, rname, rname),
+                     'std::vector<std::priority_queue<%s>>' % rname):
+                cmp_ = m.pair_comparator(rname)
+                if cmp_ is not None:
+                    def pspec(v):
+                        if v[('L', 'first')] != v[('R', 'first')]:
+                            return v[('L', 'first')] < v[('R', 'first')]
+                        return None
+                    ok, why_ = cmpeval.judge(cmp_, pspec)
     rep.check(ok, R, _w(d.line), 'scored:type',
               'candidate queues are max-heaps of (score, category) pairs: %s' % d.type,
               'candidate queues have type %s' % d.type)
@@ -188,7 +205,8 @@ def r_best(m, rep, R='R1.2b'):
     # statement order: init loop < outside calls < leaf loop < search loop
     idx = {id(s): i for i, s in enumerate(m.top)}
     order = [max(idx[id(l_)] for l_ in m.init_loops)] + [idx[id(o[3])] for o in m.outside] + [idx[id(m.leaf_loop)], idx[id(m.main_loop)]]
-    rep.check(order[0] < min(order[1:3]) and max(order[1:3]) < order[3] < order[4], R,
+    derived_ok = all(max(order[1:3]) < idx[id(l_)] < order[3] for l_ in getattr(m, 'derived_loops', ()))
+    rep.check(order[0] < min(order[1:3]) and max(order[1:3]) < order[3] < order[4] and derived_ok, R,
               _w(m.init_loop.line), 'order', 'atoms are computed before the agenda is seeded, seeding before search',
               'statement order of initialisation / outside tables / seeding / search is wrong')
     # matrix accessor
@@ -265,6 +283,35 @@ def r_utils_argmax(m, rep, R):
                 {cursor, counter[0]} <= incs and decl.get(counter[0]) == LIT(0) and \
                 decl.get(maxv) is not None and decl[maxv][0] == 'call' and decl[maxv][1] == 'lowest'
             detail = 'test %s, updates %s, start %s' % (canon(c), assigns, show(decl.get(maxv)) if maxv else None)
+        if not ok and lp.kind == 'ForStmt' and len(lp.kids[4].find('IfStmt')) == 1:
+            # the same scan by position:  for (i = 0; from + i != to; i++)  with the element spelt from[i]
+            init, cond_n, inc, lbody = cxx.for_parts(lp)
+            ifs = lbody.find('IfStmt')
+            ivs = [d for d in (init.find('VarDecl') if init is not None else []) if env.init_of(d) is not None and term(env.init_of(d), env) == LIT(0)]
+            if len(ivs) == 1 and cond_n is not None:
+                i_ = ivs[0].name
+                ct = canon(term(cond_n, env))
+                pos = ('bin', '+', V(pr[0]), V(i_))
+                span = ('bin', '-', V(pr[1]), V(pr[0]))
+                okcond = ct in (canon(('bin', '!=', pos, V(pr[1]))), canon(('bin', '<', pos, V(pr[1]))),
+                                canon(('bin', '<', V(i_), span)), canon(('bin', '!=', V(i_), span)))
+                stepped = inc is not None and {strip(n.kids[0]).ref for n in inc.walk() if n.kind == 'UnaryOperator' and n.op == '++'} == {i_}
+                touched = [n for n in lbody.walk() if n.kids and strip(n.kids[0]).ref in (i_, pr[0], pr[1]) and (
+                    (n.kind == 'UnaryOperator' and n.op in ('++', '--')) or (n.kind == 'BinaryOperator' and n.op == '=') or n.kind == 'CompoundAssignOperator')]
+                c = term(ifs[0].kids[0], env)
+                elem_terms = (IDX(V(pr[0]), V(i_)), ('deref', pos))
+                elems = [canon(e_) for e_ in elem_terms]
+                maxv = None
+                locs = {k_: v_ for k_, v_ in decl.items() if k_ != i_}
+                for cand in locs:
+                    for op_ in ('<=', '<'):
+                        if canon(c) in [canon(('bin', op_, V(cand), e_)) for e_ in elem_terms]:
+                            maxv = cand
+                assigns = {canon(term(a.kids[0], env)): canon(term(a.kids[1], env)) for a in ifs[0].kids[1].find('BinaryOperator') if a.op == '='}
+                ok = bool(okcond and stepped and not touched and maxv is not None and set(assigns) == {idxv, maxv} and assigns.get(idxv) == i_
+                          and assigns.get(maxv) in elems and set(locs) == {maxv, idxv}
+                          and locs.get(maxv) is not None and locs[maxv][0] == 'call' and locs[maxv][1] == 'lowest')
+                detail = 'by position: test %s, updates %s, start %s' % (canon(c), assigns, show(locs.get(maxv)) if maxv else None)
     rep.check(ok, R, w, 'utils::argmax', 'argmax scans [from, to) from the lowest value and returns the position of a maximum (%s)' % detail,
               'utils::argmax does not return the position of a maximum: %s' % detail)
 
@@ -1244,7 +1291,7 @@ def r_items_immutable(m, rep, R):
     results, and would change entries that parents already point at)."""
     fields = set(m.item_fields)
     n = 0
-    scopes = [('parse_sentence', m.ps), ('chart', m.decls['chart']), ('operator<', m.decls['operator<'])]
+    scopes = [('parse_sentence', m.ps), ('chart', m.decls['chart'])] + ([('operator<', m.agenda_comparator()[0])] if m.agenda_comparator()[0] is not None else [])
     for name, scope in scopes:
         for a in scope.walk():
             tgt = None
@@ -1274,7 +1321,7 @@ def r_ids_not_ordered(m, rep, R):
     """category ids of derived categories depend on discovery order (history); they may be compared for equality and
     hashed, but never ordered: the search order must depend on scores only."""
     bad = []
-    scopes = [('parse_sentence', m.ps, m.env), ('operator<', m.decls['operator<'], None), ('chart', m.decls['chart'], None)]
+    scopes = [('parse_sentence', m.ps, m.env), ('chart', m.decls['chart'], None)] + ([('operator<', m.agenda_comparator()[0], None)] if m.agenda_comparator()[0] is not None else [])
     n = 0
     for name, scope, env in scopes:
         e = env or cxx.Env(scope)
@@ -1374,23 +1421,40 @@ def r_nbest(m, rep, R):
     # cell::sort comparator
     cell = [k for k in m.decls['chart'].walk() if k.kind == 'CXXRecordDecl' and k.name == 'cell' and cxx.fields_of(k)][0]
     srt = cxx.method(cell, 'sort')
-    lam = srt.find('LambdaExpr')
+    from . import cmpeval
     ok = False
-    detail = 'no comparator lambda'
-    if lam:
-        op = [k for k in lam[0].walk() if k.kind == 'CXXMethodDecl' and k.name == 'operator()'][0]
-        pr = [p.name for p in cxx.params_of(op)]
-        p = Paths(op).paths
-        got = expand_methods(p[0][2], m) if len(p) == 1 and p[0][2] else None
-        if got is not None and got[0] == 'bin' and got[1] in ('<', '>') and got[2][0] == 'var' and got[3][0] == 'var':
-            # items compared with operator< (checked by R1.1 to be a comparison of score())
-            got = ('bin', got[1], ADD(M(got[2], 'in_score'), M(got[2], 'out_score')), ADD(M(got[3], 'in_score'), M(got[3], 'out_score')))
-        spec = ('bin', '>', ADD(M(V(pr[0]), 'in_score'), M(V(pr[0]), 'out_score')),
-                ADD(M(V(pr[1]), 'in_score'), M(V(pr[1]), 'out_score')))
-        senv = cxx.Env(srt)
-        sorts = [term(n, senv) for n in srt.find('CXXMemberCallExpr') if strip(n.kids[0]).name == 'sort']
-        ok = got is not None and canon(got) == canon(spec) and len(sorts) == 1 and sorts[0][1] == M(('this',), 'items')
-        detail = 'comparator %s on %s' % (canon(got) if got else '?', [show(s[1]) for s in sorts])
+    detail = 'no comparator'
+    senv = cxx.Env(srt)
+    sort_nodes = [n for n in srt.find('CXXMemberCallExpr') if strip(n.kids[0]).name == 'sort']
+    sorts = [term(n, senv) for n in sort_nodes]
+    cmp_fn = None
+    if len(sorts) == 1 and len(sorts[0][3]) == 1:
+        lam = sort_nodes[0].find('LambdaExpr') or srt.find('LambdaExpr')
+        a_ = sorts[0][3][0]
+        while a_[0] == 'ctor' and len(a_[2]) == 1 and a_[2][0][0] == 'ctor':
+            a_ = a_[2][0]          # copies of the temporary
+        if a_[0] == 'ctor' and not a_[2]:
+            # a function object: items.sort(higher_score())
+            rname = (a_[1] or '').replace('parsing::', '').replace('struct ', '').replace('class ', '').replace('const ', '').strip()
+            rec = m.decls.get(rname)
+            if rec is not None and rec.kind == 'CXXRecordDecl':
+                ops = [k for k in rec.kids if k.kind == 'CXXMethodDecl' and k.name == 'operator()' and any(c.kind == 'CompoundStmt' for c in k.kids)]
+                cmp_fn = ops[0] if len(ops) == 1 else None
+                detail = 'comparator %s' % rname
+        elif len(lam) == 1:
+            cmp_fn = [k for k in lam[0].walk() if k.kind == 'CXXMethodDecl' and k.name == 'operator()'][0]
+            detail = 'comparator lambda'
+    elif len(sorts) == 1 and not sorts[0][3]:
+        detail = 'items.sort() without a comparator: ascending by operator<, the worst parse first'
+    if cmp_fn is not None:
+        score = lambda v, s_: v[(s_, 'in_score')] + v[(s_, 'out_score')]
+
+        def spec(v):
+            l_, r_ = score(v, 'L'), score(v, 'R')
+            return None if l_ == r_ else l_ > r_
+        okc, why = cmpeval.judge_items(cmp_fn, spec)
+        ok = okc and sorts[0][1] == M(('this',), 'items')
+        detail = '%s on %s: %s' % (detail, [show(s_[1]) for s_ in sorts], why)
     rep.check(ok, R, _w(srt.line, 'cell::sort'), 'nbest:sort-order',
               'cell.sort() orders items by descending score (%s)' % detail, 'cell.sort(): ' + detail)
     # begin/end iterate the item list
